@@ -761,7 +761,8 @@ func c17r4(c *Ctx) {
 		at token.Pos
 	}
 	needs := map[*types.Var]need{}
-	for _, raw := range c.P.MethodsOf("chain", "MemDB") {
+	// (the operations live on the store or on its bucket handle)
+	for _, raw := range append(c.P.MethodsOf("chain", "MemDB"), c.P.MethodsOf("chain", memBucketType(c.P))...) {
 		m := kvv.Of(raw)
 		if m == nil || m.Type.Results == nil {
 			continue
